@@ -575,6 +575,20 @@ theorem msgsOf_oneC_msg (k j : Ident) (m : Msg) :
     msgsOf (oneC k (.message m) j) = if j = k then [m] else [] := by
   unfold oneC; split <;> simp [msgsOf]
 
+theorem RecvPost.one_ok (t : SockType) (k : Ident) (m m' : Msg) (hd : deliver t k m = some m') :
+    RecvPost t (oneC k (.message m)) (.ready (.okMsg m')) :=
+  ⟨k, m, by simp [msgsOf_oneC_msg], hd, fun j hj => by simp [msgsOf_oneC_msg, hj]⟩
+
+theorem RecvPost.one_err (t : SockType) (k : Ident) (m : Msg) (e : Err) (hd : deliver t k m = none) :
+    RecvPost t (oneC k (.message m)) (.ready (.err e)) :=
+  Or.inr ⟨k, m, by simp [msgsOf_oneC_msg], hd, fun j hj => by simp [msgsOf_oneC_msg, hj]⟩
+
+theorem deliver_other (t : SockType) (k : Ident) (m : Msg) (h1 : t ≠ .router) (h2 : t ≠ .rep) :
+    deliver t k m = some m := by
+  cases t <;> simp_all [deliver]
+
+theorem setSock_pipes (w : World) (k : Nat) (s : Socket) : (setSock w k s).pipes = w.pipes := rfl
+
 /-- **One poll of `recv`** (PULL, SUB, DEALER, ROUTER, REP, XPUB), against the byte streams of the
 socket's connections.  The items taken off each connection's stream during the poll (`c k`) are
 a prefix of that stream's items (relation `Step`); among everything taken there is AT MOST ONE
@@ -610,8 +624,66 @@ theorem recvPoll_spec (fuel : Nat) (w : World) (sid : Nat) (s : Socket) (hs : ge
         | pending => exact hpost.elim
         | eof => exact hpost.elim
         | err e =>
-          sorry
+          simp only [setSock_pipes] at h hpost
+          have b1 : Step ps1 (ierase s1.fqStreams k) (peerDisconnected ps1 s1 k).1 (ierase s1.fqStreams k) nilC :=
+            Step.frame _ (pd_inbuf ps1 s1 k)
+          have total : Step w.pipes s.fqStreams (peerDisconnected ps1 s1 k).1 (peerDisconnected ps1 s1 k).2.fqStreams nilC :=
+            (Step.pre hpost b1).congr (fun j => pd_lookup_fq ps1 s1 k hfq1 j)
+          have hpd2 := total.pd hpd
+          have htyp2 : (peerDisconnected ps1 s1 k).2.typ = s.typ := (pd_typ ps1 s1 k).trans htyp
+          by_cases hr : (peerDisconnected ps1 s1 k).2.typ = SockType.router
+          · simp only [hr, ↓reduceIte] at h
+            obtain ⟨s', c, g1, g2, g3, g4, g5⟩ := ih _ _ (getSock_setSock_same _ _ _) (by rw [htyp2]; exact hfq) hpd2 h
+            exact ⟨s', c, g1, g2.trans htyp2, g3, Step.pre total g4, by rw [← htyp2]; exact g5⟩
+          · simp only [hr, ↓reduceIte, Prod.mk.injEq] at h
+            obtain ⟨rfl, rfl⟩ := h
+            exact ⟨_, nilC, getSock_setSock_same _ _ _, htyp2, hpd2, total, Or.inl (fun _ => rfl)⟩
         | item i =>
-          sorry
+          cases i with
+          | message m =>
+            simp only at h hpost
+            split at h
+            · rename_i hty
+              simp only [Prod.mk.injEq] at h
+              obtain ⟨rfl, rfl⟩ := h
+              exact ⟨s1, oneC k (.message m), getSock_setSock_same _ _ _, htyp, hpd1, hpost,
+                RecvPost.one_ok _ _ _ _ (by rw [← htyp, hty]; rfl)⟩
+            · rename_i hty
+              split at h
+              · rename_i hsp
+                simp only [Prod.mk.injEq] at h
+                obtain ⟨rfl, rfl⟩ := h
+                exact ⟨s1, oneC k (.message m), getSock_setSock_same _ _ _, htyp, hpd1, hpost,
+                  RecvPost.one_err _ _ _ _ (by rw [← htyp, hty]; simp [deliver, hsp])⟩
+              · rename_i env data hsp
+                simp only [Prod.mk.injEq] at h
+                obtain ⟨rfl, rfl⟩ := h
+                exact ⟨_, oneC k (.message m), getSock_setSock_same _ _ _, htyp, hpd1, hpost,
+                  RecvPost.one_ok _ _ _ _ (by rw [← htyp, hty]; simp [deliver, hsp])⟩
+            · rename_i hty
+              simp only [Prod.mk.injEq] at h
+              obtain ⟨rfl, rfl⟩ := h
+              refine ⟨_, oneC k (.message m), getSock_setSock_same _ _ _, ?_, ?_, ?_,
+                RecvPost.one_ok _ _ _ _ (by rw [← htyp, hty]; rfl)⟩
+              · split <;> exact htyp
+              · split <;> exact hpd1
+              · simp only [setSock_pipes]; split <;> exact hpost
+            · rename_i h1 h2 h3
+              simp only [Prod.mk.injEq] at h
+              obtain ⟨rfl, rfl⟩ := h
+              exact ⟨s1, oneC k (.message m), getSock_setSock_same _ _ _, htyp, hpd1, hpost,
+                RecvPost.one_ok _ _ _ _ (deliver_other _ _ _ (by rw [← htyp]; exact h1) (by rw [← htyp]; exact h2))⟩
+          | greeting g =>
+            simp only at h hpost
+            obtain ⟨s', c, g1, g2, g3, g4, g5⟩ := ih _ _ (getSock_setSock_same _ _ _) hfq1 hpd1 h
+            refine ⟨s', _, g1, g2.trans htyp, g3, hpost.trans g4, ?_⟩
+            rw [← htyp]
+            exact g5.congr (fun j => by unfold oneC; split <;> simp [msgsOf])
+          | command p =>
+            simp only at h hpost
+            obtain ⟨s', c, g1, g2, g3, g4, g5⟩ := ih _ _ (getSock_setSock_same _ _ _) hfq1 hpd1 h
+            refine ⟨s', _, g1, g2.trans htyp, g3, hpost.trans g4, ?_⟩
+            rw [← htyp]
+            exact g5.congr (fun j => by unfold oneC; split <;> simp [msgsOf])
 
 end Zmq.W
